@@ -85,8 +85,12 @@ func (p *Program) AppendPoints() []*AppendPoint {
 		case DOneof:
 			fieldsPoint(desc+"{oneof}", &d.Fields, true)
 		case DEnum:
-			out = append(out, &AppendPoint{Desc: desc + "{enum}", Kinds: []string{"enum-option"}, Apply: func(kind string, serial int) {
-				d.Options = append(d.Options, EnumOpt{Name: fmt.Sprintf("ADDED_%d", serial)})
+			out = append(out, &AppendPoint{Desc: desc + "{enum}", Kinds: []string{"enum-option", "enum-option-named-unspecified"}, Apply: func(kind string, serial int) {
+				name := fmt.Sprintf("ADDED_%d", serial)
+				if kind == "enum-option-named-unspecified" {
+					name = fmt.Sprintf("ADDED_%d_UNSPECIFIED", serial) // only the first option may claim the zero slot
+				}
+				d.Options = append(d.Options, EnumOpt{Name: name})
 			}})
 		}
 	}
@@ -134,8 +138,12 @@ func (p *Program) AppendPoints() []*AppendPoint {
 				for _, ev := range d.Events {
 					fieldsPoint(desc+":event."+ev.Name, &ev.Fields, false)
 				}
-				out = append(out, &AppendPoint{Desc: desc + ":statuses", Kinds: []string{"status"}, Apply: func(kind string, serial int) {
-					d.Statuses = append(d.Statuses, EnumOpt{Name: fmt.Sprintf("ADDED_%d", serial)})
+				out = append(out, &AppendPoint{Desc: desc + ":statuses", Kinds: []string{"status", "status-named-unspecified"}, Apply: func(kind string, serial int) {
+					name := fmt.Sprintf("ADDED_%d", serial)
+					if kind == "status-named-unspecified" {
+						name = fmt.Sprintf("ADDED_%d_UNSPECIFIED", serial)
+					}
+					d.Statuses = append(d.Statuses, EnumOpt{Name: name})
 				}})
 				out = append(out, &AppendPoint{Desc: desc + ":events", Kinds: []string{"event"}, Apply: func(kind string, serial int) {
 					d.Events = append(d.Events, &Event{Name: fmt.Sprintf("Added%d", serial), Fields: []*Field{fld("x", T(TString))}})
